@@ -422,7 +422,17 @@ def cidr(cfg, crate, I, rep):
             else:
                 inv[name] = oid_
         custom_ok = custom_ok and n_custom >= 1
-    rep.ob("C02.tables", "%s|%s" % (cfg, fn), inv == DN_OIDS and custom_ok, "from_oid is the inverse of to_oid (each registered OID maps to its attribute type; anything else becomes CustomDnType(oid))", expected=DN_OIDS, found=inv)
+    # the inverse of the writer's own table (which `to_oid` above pins to the RFC values for the well-known types; a
+    # later release may name further types: they must then appear in both tables with the same OID)
+    to_oid_table = {}
+    It_ = Interp(crate)
+    vt_ = core(It_.run_fn("certificate::DnType::to_oid")["value"])
+    if isinstance(vt_, CallV) and vt_.args and isinstance(core(vt_.args[0]), PhiV):
+        for c_, x_ in core(vt_.args[0]).alts:
+            for nm_ in S._variants_of(c_) or []:
+                to_oid_table[nm_] = It_.concrete(x_)
+    want_inv = {k: v_ for k, v_ in to_oid_table.items() if k != "CustomDnType" and isinstance(v_, list)}
+    rep.ob("C02.tables", "%s|%s" % (cfg, fn), inv == want_inv and set(DN_OIDS) <= set(inv) and custom_ok, "from_oid is the inverse of to_oid (each registered OID maps to its attribute type; anything else becomes CustomDnType(oid))", expected=want_inv, found=inv)
     fn = "certificate::CidrSubnet::to_bytes"
     rep.fn(fn)
     import ceval
